@@ -737,14 +737,13 @@ class Context:
         # because it might be changed across threads
         _base_hash_on_config = deepcopy(self.config)
         # Also take into account the versions of the plugins registered
-        _base_hash_on_config.update(
-            {
-                data_type: (plugin.version(), plugin.compressor, plugin.input_timeout)
-                for data_type, plugin in self._plugin_class_registry.items()
-                if not data_type.startswith(TEMP_DATA_TYPE_PREFIX)
-            }
-        )
-        return strax.deterministic_hash(_base_hash_on_config)
+        _base_hash_on_plugins = {
+            data_type: (plugin.version(), plugin.compressor, plugin.input_timeout)
+            for data_type, plugin in self._plugin_class_registry.items()
+            if not data_type.startswith(TEMP_DATA_TYPE_PREFIX)
+        }
+        # Keep the two apart: an option may have the same name as a data type
+        return strax.deterministic_hash((_base_hash_on_config, _base_hash_on_plugins))
 
     def _plugins_are_cached(self, targets: ty.Union[ty.Tuple[str], ty.List[str]]) -> bool:
         """Check if all the requested targets are in the _fixed_plugin_cache."""
